@@ -371,6 +371,14 @@ def r10_3(ctx, rr):
             rr.violate(key, "%s and %s disagree: only in the first %s; only in the second %s" % (a.key, b.key, [str(x)[:160] for x in only_a[:4]], [str(x)[:160] for x in only_b[:4]]), b.span)
 
 
+def is_index_bound(c, idx_node, limit_id):
+    """c is `i < limit` (or `limit > i`) for the local i used as the index and the parameter `limit`."""
+    if c.get("k") != "Binary" or c["op"] not in ("<", ">") or idx_node.get("k") != "Path":
+        return False
+    lo, hi = (c["l"], c["r"]) if c["op"] == "<" else (c["r"], c["l"])
+    return lo.get("k") == "Path" and lo.get("id") == idx_node.get("id") and hi.get("k") == "Path" and hi.get("id") == limit_id
+
+
 @rule("R05.2", props=["C05", "C06", "C01", "C14"], floor=4, title="growth never relies on clean storage: every new element/bit is written, push clears before setting")
 def r05_2(ctx, rr):
     F = ctx.F()
@@ -383,6 +391,26 @@ def r05_2(ctx, rr):
         value = ("var", b.params[2]["name"], b.params[2]["id"])
         found = []
         pm = {id(n): ps for n, ps in walk_with_parents(b.body)}
+        T0 = Termizer(F, b)
+
+        def while_range(n, b=b, pm=pm, slf=slf, T0=T0):
+            """the call n sits in `let mut i = self.len; while i < new_len { ..; i += 1 }` (i the index argument)"""
+            idx_node = call_args(n)[1]
+            if not (idx_node.get("k") == "Path" and idx_node.get("res") == "local"):
+                return False
+            lid = idx_node["id"]
+            lets = [x for x in walk(b.body) if x.get("k") == "LetStmt" and x["pat"].get("k") == "PBind" and x["pat"]["id"] == lid and "init" in x]
+            incs = [x for x in walk(b.body) if x.get("k") == "AssignOp" and x["l"].get("k") == "Path" and x["l"].get("id") == lid]
+            asgs = [x for x in walk(b.body) if x.get("k") == "Assign" and x["l"].get("k") == "Path" and x["l"].get("id") == lid]
+            whiles = [p_ for p_ in pm.get(id(n), ()) if p_.get("k") == "Loop" and p_.get("src") == "While"]
+            if not (len(lets) == 1 and T0.term(lets[0]["init"]) == ("field", slf, "len") and len(incs) == 1 and incs[0]["op"] == "+=" and incs[0]["r"].get("v") == "1" and not asgs and whiles):
+                return False
+            st = whiles[-1]["body"].get("expr") or (whiles[-1]["body"]["stmts"][-1] if whiles[-1]["body"]["stmts"] else None)
+            if st is None or st.get("k") != "If" or not is_index_bound(st["c"], idx_node, b.params[1]["id"]):
+                return False
+            inside = set(id(x) for x in walk(whiles[-1]))
+            ips = [p_ for p_ in pm.get(id(incs[0]), ()) if p_.get("k") == "If" and id(p_) in inside]
+            return all(p_ is st for p_ in ips)
 
         def on_node(W, n, K, found=found):
             if cname(F, n) == setter and W.debug_depth == 0:
@@ -393,7 +421,7 @@ def r05_2(ctx, rr):
         why = "no call of %s found" % setter
         for n, args, K in found:
             i = args[1]
-            lo_ok = K.entails(atom_le(("field", slf, "len"), i))
+            lo_ok = K.entails(atom_le(("field", slf, "len"), i)) or while_range(n)
             hi_ok = K.entails(atom_le(i, new_len, True))
             val_ok = args[2] == value
             # conditions on the path from the growth test to the call: only `new_len > self.len` (and the loop)
@@ -403,8 +431,13 @@ def r05_2(ctx, rr):
                     conds.append(p)
             Tc = Termizer(F, b)
             growth = cmp_atoms(">", new_len, ("field", slf, "len"))
-            extra = [c for c in conds if not (c["c"].get("k") == "Binary" and sorted(map(repr, cond_atoms(Tc, c["c"], True))) == sorted(map(repr, growth)))]
-            in_for = any(p.get("k") == "Loop" and p.get("src") == "ForLoop" for p in pm.get(id(n), ()))
+            # conditions that do not restrict which elements are written: the growth test itself and the
+            # loop's own bound on the running index (`i < new_len`, the test of a `while` loop)
+            bound = cmp_atoms("<", i, new_len)
+            extra = [c for c in conds if not (c["c"].get("k") == "Binary" and sorted(map(repr, cond_atoms(Tc, c["c"], True))) == sorted(map(repr, growth)))
+                     and not is_index_bound(c["c"], call_args(n)[1], b.params[1]["id"])]
+            loops = [p for p in pm.get(id(n), ()) if p.get("k") == "Loop"]
+            in_for = bool(loops)
             if lo_ok and hi_ok and val_ok and in_for and not extra:
                 ok = True
             else:
@@ -416,6 +449,8 @@ def r05_2(ctx, rr):
         rngs = [r for r in rngs if r and r[0] is not None and r[1] is not None]
         T = Termizer(F, b)
         ok2 = any(T.term(r[0]) == ("field", slf, "len") and T.term(r[1]) == new_len and not r[2] for r in rngs)
+        if not ok2:
+            ok2 = any(while_range(n) for n, args, K in found)
         rr.instances += 1
         rr.check(ok2, "%s:fill-range" % short_fn(b.key), "%s: the fill loop must range over `self.len..new_len`" % b.key, b.span)
     # BitFieldVec::push: set_unchecked(self.len, value) unconditional (after validation, R05.1)
